@@ -287,7 +287,13 @@ func defaultValueForTypeRec(schemas ast.Schemas, typeDef ast.Type, importModule 
 			}
 			following[ref.String()] = struct{}{}
 
-			return defaultValueForTypeRec(schemas, referredObj.Type, importModule, nil, following)
+			// the reference carries a default of its own: `u: #U | *"abc"`
+			union := referredObj.Type.DeepCopy()
+			if typeDef.Default != nil {
+				union.Default = typeDef.Default
+			}
+
+			return defaultValueForTypeRec(schemas, union, importModule, nil, following)
 		} else if found && referredObj.Type.IsRef() {
 			// an alias of another object is declared as `Alias: typing.TypeAlias = 'Target'`: a string
 			// at run time, which can't be instantiated. The default is the one of what it names.
